@@ -50,9 +50,33 @@ def newick(t, names, lengths=None, rng=None):
         else:
             s = '(' + ','.join(go(c, False) for c in x) + ')'
         if lengths and not top:
-            s += ':%.2f' % rng.uniform(0.1, 3)
+            # mostly ordinary decimals; now and then a length that Python prints in exponent notation, an integer or zero
+            s += (':%.2f' % rng.uniform(0.1, 3)) if rng.random() < 0.8 else ':' + rng.choice(['1e-05', '2.5e-07', '1e+20', '0.0', '3', '12.5', '4e-10'])
         return s
     return go(t, True) + ';'
+
+
+
+def nwk_tokens(s, ids):
+    """tokens of a printed Newick string for the model: branch lengths, quotes and the final ';' removed, names -> numbers"""
+    s = re.sub(r':[0-9.eE+-]+', '', s.strip().rstrip(';'))
+    out = []
+    for m in re.finditer(r"\(|\)|,|'[^']*'|[^(),']+", s):
+        tk = m.group(0)
+        if tk in '(),':
+            out.append(tk)
+        elif tk.startswith("'"):
+            out.append(str(ids[tk.strip("'")]))                 # quoted label: literal
+        else:
+            out.append(str(ids[tk.strip().replace('_', ' ')] if tk.strip().replace('_', ' ') in ids else ids[tk.strip()]))   # unquoted: `_` stands for a blank
+    return out
+
+
+def node_structure(n, ids):
+    """nested lists of a parsed cogent tree, children in their stored order"""
+    if not n.Children:
+        return ids[n.Name] if n.Name in ids else ids[n.Name.replace('_', ' ')]
+    return [node_structure(c, ids) for c in n.Children]
 
 
 def tokens(t):
@@ -95,6 +119,8 @@ def py_split_elems(s, ids):
     for elem in s.split(','):
         o, c = elem.count('('), elem.count(')')
         name = elem.replace('(', '').replace(')', '').split(':')[0].strip().replace("'", '')
+        if name not in ids and name.replace('_', ' ') in ids:
+            name = name.replace('_', ' ')          # the writer puts `_` for a blank
         if name not in ids:
             ids[name] = len(ids) + 1000      # unknown name (e.g. "D;") -> fresh id
         out.append('%d.%d.%d' % (o, ids[name], c))
@@ -109,6 +135,7 @@ def run(chk):
     rng = chk.rng
     drv = common.Driver()
     bad_elems, bad_bip, bad_dist, fails = [], [], [], []
+    nwk_lines, bad_nwk = [], []
     seen_strings = []
     orig = _TreeDist.get_bipartition
 
@@ -139,8 +166,16 @@ def run(chk):
                     orders = rng.sample(orders, chk.n(150, 8000))
                 for tb in orders:
                     cases.append((k, ta, tb, False, 'all-orders'))
+        # corpus: the recorded input of the known finding 'newick-blank-in-name' is replayed first on every run
+        cases.insert(0, (4, [0, [1, 2], 3], [0, 3, [1, 2]], False, 'corpus:newick-blank-in-name'))
+        first_case = [True]
         for k, ta, tb, lengths, sname in cases:
             names = {i: 'T%d' % i if rng.random() < 0.8 else 'Lg_%d' % i for i in range(k)}
+            if first_case[0] or rng.random() < 0.25:
+                first_case[0] = False
+                # taxon names of several words ('Old Norse'): written quoted or with the blank replaced - either way one taxon, one name
+                for i in rng.sample(range(k), rng.choice([1, 2])):
+                    names[i] = 'Old N%d' % i
             sa = newick(ta, names, lengths, rng)
             sb = newick(tb, names, lengths, rng)
             try:
@@ -160,9 +195,22 @@ def run(chk):
                 cl2 = sorted(sorted(n.getTipNames()) for n in RA.iterNontips(include_self=True))
                 want = sorted(sorted(names[i] for i in c) for c in clade_sets(ta)[0])
                 if cl1 != want or cl2 != want:
-                    fails.append((sa, sb, 'str(Tree) round trip changes the clades'))
+                    und = sorted(sorted(x.replace(' ', '_') for x in c) for c in want)
+                    if cl1 == want and cl2 == und:
+                        fails.append((sa, sb, 'str(Tree) round trip renames a taxon: a blank in the name comes back as an underscore (%r)'
+                                      % sorted(set(x for c in cl2 for x in c if '_' in x and x.replace('_', ' ') in names.values())), 'newick-blank-in-name'))
+                    else:
+                        fails.append((sa, sb, 'str(Tree) round trip changes the clades'))
             except Exception as ex:  # noqa
                 fails.append((sa, sb, 'round trip raised %s' % type(ex).__name__))
+            # Newick writer and parser against the Lean model: print(structure) == tokens of str(Tree); parse(tokens) == structure of Tree(str)
+            try:
+                ids_n = {names[i]: i for i in range(k)}
+                toksA = nwk_tokens(strA, ids_n)
+                nwk_lines.append(('print', 'nwkprint|' + ' '.join(tokens(node_structure(A, ids_n))), 'N ' + ' '.join(toksA), sa))
+                nwk_lines.append(('parse', 'nwkparse|' + ' '.join(toksA), 'N ' + ' '.join(tokens(node_structure(RA, ids_n))), sa))
+            except Exception as ex:  # noqa
+                fails.append((sa, sb, 'Newick model check raised %s' % type(ex).__name__))
             if not spa:
                 # star-like tree: no non-trivial split; the code divides by zero (documented rejected input)
                 chk.hist['rejected:no-nontrivial-split'] += 1
@@ -205,7 +253,7 @@ def run(chk):
             ea, eb = py_split_elems(seenA, ids), py_split_elems(seenB, ids)
             try:
                 parts, lang = orig(seenA)
-                real_b = sorted(sorted(ids[x] for x in p) for p in parts)
+                real_b = sorted(sorted(ids[x] if x in ids else ids[x.replace('_', ' ')] for x in p) for p in parts)
             except Exception:
                 real_b = 'ERR'
             o = drv.ask('bipart|' + ' '.join(ea))
@@ -235,6 +283,10 @@ def run(chk):
             except Exception:
                 pass
         chk.sample({'treeA': sa, 'treeB': sb, 'rf': rf, 'grf': grf}, limit=3)
+        outs_n = drv.ask_many([l[1] for l in nwk_lines])
+        for o, (what, line, expect, sa_) in zip(outs_n, nwk_lines):
+            if o.strip() != expect.strip():
+                bad_nwk.append((what, sa_, o, expect))
     finally:
         _TreeDist.get_bipartition = staticmethod(orig)
         drv.close()
@@ -243,12 +295,24 @@ def run(chk):
     chk.obligation('correspondence:get_bipartition == model scanner + bipartition', 'correspondence', not bad_bip,
                    'mismatches=%d' % len(bad_bip))
     chk.obligation('correspondence:grf/rf == model formulas', 'correspondence', not bad_dist, 'mismatches=%d' % len(bad_dist))
-    chk.obligation('oracle:C15 statement on the real code', 'correspondence', not fails, 'failures=%d' % len(fails))
-    for f in sorted(fails, key=lambda f: len(f[0]) + len(f[1]))[:2]:
-        key = None
-        chk.violation('Tree(%r) vs Tree(%r): %s' % f, {'kind': 'trees', 'treeA': f[0], 'treeB': f[1], 'why': f[2]}, key=key)
-    if (bad_elems or bad_bip or bad_dist) and not fails:
-        b = (bad_elems or bad_bip or bad_dist)[0]
+    chk.obligation('correspondence:Newick writer and parser == Lean print / parse (token level: lengths, quotes and `;` removed by the tokenizer)',
+                   'correspondence', not bad_nwk, 'strings=%d mismatches=%d %s' % (len(nwk_lines), len(bad_nwk), str(bad_nwk[0])[:200] if bad_nwk else ''))
+    known_keys = set(k['key'] for k in chk.known)
+    real_fails = [f for f in fails if not (len(f) > 3 and f[3] in known_keys)]
+    chk.obligation('oracle:C15 statement on the real code', 'correspondence', not real_fails,
+                   'failures=%d (of these listed as known findings: %d)' % (len(fails), len(fails) - len(real_fails)))
+    seen_k = set()
+    nrep = 0
+    for f in sorted(fails, key=lambda f: len(f[0]) + len(f[1])):
+        key = f[3] if len(f) > 3 else None
+        if key in seen_k or (key is None and nrep >= 2):
+            continue
+        seen_k.add(key)
+        nrep += key is None
+        chk.violation('Tree(%r) vs Tree(%r): %s' % tuple(f[:3]), {'kind': 'trees', 'treeA': f[0], 'treeB': f[1], 'why': f[2]}, key=key)
+    fails = real_fails
+    if (bad_elems or bad_bip or bad_dist or bad_nwk) and not fails:
+        b = (bad_elems or bad_bip or bad_dist or bad_nwk)[0]
         chk.violation('model and code disagree on tree scanning/distances; no failing input found',
                       {'kind': 'trees-model', 'detail': b, 'broken': 'correspondence'}, found_input=False)
 
